@@ -58,6 +58,35 @@ Theorem C11_remove_multi : forall s xs ys,
   let r1 := bs_remove s xs in let r2 := bs_remove (fst r1) ys in (fst r2, snd r1 || snd r2).
 Proof. exact remove_app. Qed.
 
+(* ... in particular one argument at a time *)
+Theorem C11_add_one_at_a_time : forall s f fs,
+  bs_add s (f :: fs) =
+  let r1 := bs_add s [f] in let r2 := bs_add (fst r1) fs in (fst r2, snd r1 || snd r2).
+Proof. exact add_multi. Qed.
+
+Theorem C11_remove_one_at_a_time : forall s f fs,
+  bs_remove s (f :: fs) =
+  let r1 := bs_remove s [f] in let r2 := bs_remove (fst r1) fs in (fst r2, snd r1 || snd r2).
+Proof. exact remove_multi. Qed.
+
+(* width: the model is on unbounded N, the code on uint64.  [fits w x]: no bit at or above
+   position w (equivalently x < 2^w, C11_fits_lt).  Every operation keeps a w-bit state w-bit when
+   its arguments are w-bit — for every w, so for the 8/16/32/64-bit flag types, bit 63 included,
+   nothing can wrap — and on a w-bit state Go's `s &= ^f` (AND with the w-bit complement) is the
+   model's and-not. *)
+Theorem C11_fits_lt : forall w x, fits w x <-> x < 2 ^ w.
+Proof. exact fits_iff_lt. Qed.
+
+Theorem C11_width_closed : forall w s items f,
+  fits w s -> Forall (fits w) items ->
+  fits w (bs_make items) /\ fits w (fst (bs_add s items)) /\ fits w (fst (bs_remove s items))
+  /\ fits w (bs_maskof s f).
+Proof. exact width_closed. Qed.
+
+Theorem C11_and_not_is_complement : forall w s f,
+  fits w s -> N.ldiff s f = N.land s (N.lxor (f mod 2 ^ w) (N.ones w)).
+Proof. exact ldiff_is_land_complement. Qed.
+
 (* every operation sequence, from every initial state: the code's model and the abstract
    bit-set algebra produce the same outputs at every step *)
 Theorem C11_refines : forall ops s, bs_run s ops = spec_run s ops.
@@ -71,10 +100,7 @@ Proof. vm_compute. repeat split. Qed.
 (* the pinned code (before fix a37dd1b) violated C11_remove_changed — kept as a record *)
 Theorem C11_remove_changed_orig_refuted :
   exists s items, ~ (snd (bs_remove_orig s items) = true <-> fst (bs_remove_orig s items) <> s).
-Proof.
-  exists 3, [6]. destruct remove_orig_partial_flag as [E Hne]. rewrite E. simpl.
-  intros [_ H]. specialize (H Hne). discriminate.
-Qed.
+Proof. exact remove_orig_refuted_ex. Qed.
 
 Print Assumptions C11_make_bits.
 Print Assumptions C11_add_bits.
@@ -87,3 +113,9 @@ Print Assumptions C11_remove_changed.
 Print Assumptions C11_add_multi.
 Print Assumptions C11_remove_multi.
 Print Assumptions C11_refines.
+Print Assumptions C11_add_one_at_a_time.
+Print Assumptions C11_remove_one_at_a_time.
+Print Assumptions C11_fits_lt.
+Print Assumptions C11_width_closed.
+Print Assumptions C11_and_not_is_complement.
+Print Assumptions C11_remove_changed_orig_refuted.
